@@ -103,7 +103,7 @@ class C19(Check):
             'Object counts 0, 1, few, and enough to fill 1..5 read chunks of 64 KiB. non-trivial = >= 2 objects; distinct = hash of the case')
     ASSUMPTIONS = ['orjson / json are trusted as JSON codecs; floats are finite; top-level items are dicts (domain of the property)']
     ANCHORS = ['rxsci/container/json.py', 'rxsci/io/file.py', 'rxsci/framing/line.py', 'rxsci/data/codec.py']
-    REQUIRED_TAGS = ['none', 'gzip', 'zstd', 'stream', 'path', 'fileobj', 'open_obj', 'empty', 'multi-chunk', 'astral', 'whole-document', 'over-1MiB-compressible', 'gzip-ratio>32-over-2MiB']
+    REQUIRED_TAGS = ['none', 'gzip', 'zstd', 'stream', 'path', 'fileobj', 'open_obj', 'empty', 'multi-chunk', 'astral', 'whole-document', 'over-1MiB-compressible', 'gzip-ratio>32-over-2MiB', 'pushed-source']
     REQUIRED_OBSERVED = ['objects_compared']
 
     def __init__(self):
@@ -212,7 +212,14 @@ class C19(Check):
                     with open(path, 'wb') as f0:
                         f0.write(b'{"stale": true}\n' * 3)
                     out.tags.append('overwrites-existing-file')
-                w = subscribe(rx.from_(objs).pipe(J.dump_to_file(path, compression=comp)), Snap())
+                if len(objs) % 2:
+                    from ..progs import dump_pushed
+                    out.tags.append('pushed-source')
+                    w = dump_pushed(lambda o: o.pipe(J.dump_to_file(path, compression=comp)), objs, path, out, 'json.dump_to_file')
+                    if out.failures:
+                        return out
+                else:
+                    w = subscribe(rx.from_(objs).pipe(J.dump_to_file(path, compression=comp)), Snap())
                 if w.err is not None or not w.done:
                     return out.fail('dump_to_file-failed', error=repr(w.err), done=w.done)
                 if not os.path.exists(path):
